@@ -3,8 +3,8 @@
    The model is Model/Complex.v (every operator impl of src/complex/mod.rs as its own function).
    Not proved here: the "few ulps" accuracy of the f64 instantiation for the code's own arithmetic
    (tie + search; see cmul_rounding_bound below for the rounding-model statement, if present). *)
-From Coq Require Import List Arith Bool Ring_theory Field_theory QArith Qcanon.
-From OV Require Import Base.Panic Base.Arith Model.Complex Inst.QcInst Inst.FloatInst Proofs.Complex Proofs.ComplexQc Proofs.ComplexFloat Proofs.ComplexField.
+From Coq Require Import List Arith Bool Ring_theory Field_theory QArith Qcanon Reals.
+From OV Require Import Base.Panic Base.Arith Model.Complex Inst.QcInst Inst.FloatInst Proofs.Complex Proofs.ComplexQc Proofs.ComplexFloat Proofs.ComplexField Proofs.ComplexRound.
 
 (* ---- Complex F is the commutative ring F[i] ---- *)
 Theorem complex_ring : forall A : Arith,
@@ -242,3 +242,41 @@ Proof. intros z w. exact (cmp_total_lemma AQ_order z w). Qed.
 Check cmp_total_Qc : forall z w : cplx AQ,
   exactly_one (cltb z w = true) (z = w) (cltb w z = true).
 Print Assumptions cmp_total_Qc.
+
+(* ---- P3: the "few ulps" half, for the float instance of the model itself ----
+   For finite z, w : Complex<f64> (cplx AF, Coq's primitive binary64 = the arithmetic of the float tier) whose four
+   products and two sums neither overflow nor fall into the subnormal range, the product as the code computes it,
+   (fl(fl(ac) - fl(bd)), fl(fl(ad) + fl(bc))), is finite and satisfies the NORMWISE bound
+       |fl(z*w) - z*w|^2 <= 2 (2u + u^2)^2 |z|^2 |w|^2 ,   u = 2^-53     (|error| <= 2.83 u |z| |w|),
+   real values taken through Flocq's B2R o Prim2B.  (Componentwise accuracy is false: the real part can cancel.)
+   Assumptions: the four standard real-number axioms + the FloatAxioms specification of the primitive operations. *)
+Theorem cmul_rounding_bound : forall z w : cplx AF,
+  let a := FR (re z) in let b := FR (im z) in let c := FR (re w) in let d := FR (im w) in
+  ffinite (re z) -> ffinite (im z) -> ffinite (re w) -> ffinite (im w) ->
+  in_range (a * c) -> in_range (b * d) -> in_range (a * d) -> in_range (b * c) ->
+  in_range (rnd64 (a * c) - rnd64 (b * d)) -> in_range (rnd64 (a * d) + rnd64 (b * c)) ->
+  ffinite (re (cmul z w)) /\ ffinite (im (cmul z w)) /\
+  let er := (FR (re (cmul z w)) - (a * c - b * d))%R in
+  let ei := (FR (im (cmul z w)) - (a * d + b * c))%R in
+  (er * er + ei * ei <= 2 * ((2 * u64 + u64 * u64) * (2 * u64 + u64 * u64)) * ((a * a + b * b) * (c * c + d * d)))%R.
+Proof. intros z w. exact (cmul_rounding_bound_lemma z w). Qed.
+Check cmul_rounding_bound : forall z w : cplx AF,
+  let a := FR (re z) in let b := FR (im z) in let c := FR (re w) in let d := FR (im w) in
+  ffinite (re z) -> ffinite (im z) -> ffinite (re w) -> ffinite (im w) ->
+  in_range (a * c) -> in_range (b * d) -> in_range (a * d) -> in_range (b * c) ->
+  in_range (rnd64 (a * c) - rnd64 (b * d)) -> in_range (rnd64 (a * d) + rnd64 (b * c)) ->
+  ffinite (re (cmul z w)) /\ ffinite (im (cmul z w)) /\
+  let er := (FR (re (cmul z w)) - (a * c - b * d))%R in
+  let ei := (FR (im (cmul z w)) - (a * d + b * c))%R in
+  (er * er + ei * ei <= 2 * ((2 * u64 + u64 * u64) * (2 * u64 + u64 * u64)) * ((a * a + b * b) * (c * c + d * d)))%R.
+Print Assumptions cmul_rounding_bound.
+Print Assumptions cplx_ext. (* closed; ends the axiom list above for the audit's output parser *)
+(* non-vacuity: (1.5 + 2i)(3 - 0.5i) -- every operand component non-zero -- meets every hypothesis *)
+Example cmul_rounding_bound_nonvacuous_at :
+  let z := @mkC AF (FloatInst.fz false 3 (-1)) (FloatInst.fz false 2 0) in
+  let w := @mkC AF (FloatInst.fz false 3 0) (FloatInst.fz true 1 (-1)) in
+  let a := FR (re z) in let b := FR (im z) in let c := FR (re w) in let d := FR (im w) in
+  ffinite (re z) /\ ffinite (im z) /\ ffinite (re w) /\ ffinite (im w) /\
+  in_range (a * c) /\ in_range (b * d) /\ in_range (a * d) /\ in_range (b * c) /\
+  in_range (rnd64 (a * c) - rnd64 (b * d)) /\ in_range (rnd64 (a * d) + rnd64 (b * c)).
+Proof. exact cmul_rounding_bound_nonvacuous. Qed.
